@@ -17,6 +17,8 @@ pub const ALPHA_UTF8: usize = 5;
 pub const ALPHA_FULL: usize = 6;
 pub const ALPHA_HIGHCASE: usize = 7;
 pub const ALPHA_LETTERMIX: usize = 8;
+pub const ALPHA_ONEHIGH: usize = 9;
+pub const ALPHA_EDGES: usize = 10;
 
 pub fn alphabet(idx: usize) -> Vec<u8> {
     match idx {
@@ -35,6 +37,10 @@ pub fn alphabet(idx: usize) -> Vec<u8> {
         // few letters in both cases with very different frequency ranks plus
         // one rare non-letter: rare bytes become letters
         8 => b"eEtTxX#e".to_vec(),
+        // small alphabet whose only non-ASCII byte is 0x80 (the first one)
+        9 => vec![b'a', b'b', b'c', 0x80],
+        // the bytes at the ends of the ASCII and of the byte range
+        10 => vec![b'a', b'b', 0x00, 0x7f, 0x80, 0xff, 0x01, 0xfe],
         // letters and bytes >= 0x80 whose low bits look like letters
         _ => vec![b'a', b'A', b'c', b'C', 0xc1, 0xe1, 0xc3, 0xe3, 0x41 | 0x80, b'z', b'Z', 0x5b, 0x7b],
     }
@@ -907,6 +913,8 @@ pub fn default_alphabets() -> Vec<(u32, usize)> {
         (5, ALPHA_UTF8),
         (6, ALPHA_FULL),
         (4, ALPHA_HIGHCASE),
+        (4, ALPHA_ONEHIGH),
+        (4, ALPHA_EDGES),
     ]
 }
 
